@@ -166,6 +166,34 @@ def unit_norm_sites(fi, prog=None, _depth=1):
         den = n.right
         numr = n.left
         den_x = expand(fi, den)
+        # np.take_along_axis(X, argmax(abs(X), axis=a)[newaxis at a], axis=a): the pivots of the vectors lying along axis a, kept broadcastable
+        if isinstance(den_x, ast.Call) and callee_name(prog, fi, den_x) == "numpy.take_along_axis" and len(den_x.args) >= 2:
+            ax = kwarg(den_x, "axis", 2)
+            idx = expand(fi, den_x.args[1])
+            ins = None
+            if isinstance(idx, ast.Subscript):
+                iel = index_elts(idx)
+                new_pos = [i for i, x in enumerate(iel) if (isinstance(x, ast.Constant) and x.value is None) or src(x).endswith("newaxis")]
+                if len(new_pos) == 1 and all(is_full_slice(x) for i, x in enumerate(iel) if i != new_pos[0]):
+                    ins, idx = new_pos[0], expand(fi, idx.value)
+            elif isinstance(idx, ast.Call) and callee_name(prog, fi, idx) == "numpy.expand_dims" and len(idx.args) >= 1:
+                a2 = kwarg(idx, "axis", 1)
+                ins, idx = (a2.value if isinstance(a2, ast.Constant) else None), expand(fi, idx.args[0])
+            a_ = argreduce(prog, fi, idx, ARGMAX)
+            if a_ is None or ins is None or not isinstance(ax, ast.Constant):
+                out.append((n, None, f"divisor `{src(den, 60)}`: pivot selection not recognised"))
+                continue
+            inner = strip_abs(prog, fi, expand(fi, a_))
+            ax_arg = kwarg(idx, "axis", 1)
+            if inner is None:
+                out.append((n, False, f"pivot index is argmax of `{src(a_)}`, not of a magnitude (abs missing)"))
+            elif not (isinstance(ax_arg, ast.Constant) and ax_arg.value == ax.value == ins):
+                out.append((n, False, f"pivot searched along axis `{src(ax_arg) if ax_arg is not None else None}`, selected along axis {ax.value}, broadcast along axis {ins}"))
+            elif not (same(fi, inner, den_x.args[0]) and same(fi, numr, den_x.args[0])):
+                out.append((n, False, f"the largest-magnitude components are searched in `{src(inner)}` / taken from `{src(den_x.args[0])}` but `{src(numr)}` is normalised"))
+            else:
+                out.append((n, True, f"`{src(numr)}` divided by its own components at argmax(abs(.), axis={ax.value})"))
+            continue
         if not isinstance(den_x, ast.Subscript):
             continue
         # broadcast wrapper  p[:, None] / p[None, :] / p[:, np.newaxis]
@@ -845,6 +873,14 @@ class _Fold(ast.NodeTransformer):
         if isinstance(node.value, (ast.Tuple, ast.List)) and isinstance(node.slice, ast.Constant) and isinstance(node.slice.value, int) \
                 and -len(node.value.elts) <= node.slice.value < len(node.value.elts) and not any(isinstance(e, ast.Starred) for e in node.value.elts):
             return node.value.elts[node.slice.value]
+        # X[:n][k] -> X[k]  and  X[m:][k] -> X[m + k]   (literal bounds, 0 <= k < n: the first items of a sequence)
+        if isinstance(node.value, ast.Subscript) and isinstance(node.value.slice, ast.Slice) and isinstance(node.slice, ast.Constant) \
+                and isinstance(node.slice.value, int) and node.slice.value >= 0 and node.value.slice.step is None:
+            lo, up = node.value.slice.lower, node.value.slice.upper
+            lo_v = 0 if lo is None else (lo.value if isinstance(lo, ast.Constant) and isinstance(lo.value, int) and lo.value >= 0 else None)
+            up_ok = up is None or (isinstance(up, ast.Constant) and isinstance(up.value, int) and lo_v is not None and node.slice.value < up.value - lo_v)
+            if lo_v is not None and up_ok:
+                return ast.Subscript(value=node.value.value, slice=ast.Constant(value=lo_v + node.slice.value), ctx=node.ctx)
         # X[a, b, :][s] -> X[a, b, s]   (exactly one full slice, all other indices scalars)
         if isinstance(node.value, ast.Subscript) and not isinstance(node.slice, ast.Tuple):
             inner = index_elts(node.value)
@@ -973,7 +1009,17 @@ def prune(body, consts):
     try and with blocks (compound nodes are shallow-copied, simple statements are shared with the original tree)."""
     out = []
     consts = dict(consts)
+
+    def ends(ss):
+        if not ss:
+            return False
+        z = ss[-1]
+        if isinstance(z, (ast.Return, ast.Raise, ast.Continue, ast.Break)):
+            return True
+        return isinstance(z, ast.If) and bool(z.orelse) and ends(z.body) and ends(z.orelse)
     for s in body:
+        if ends(out):
+            break           # code after a decided early exit is unreachable under these constants
         if isinstance(s, ast.Assign) and len(s.targets) == 1 and isinstance(s.targets[0], ast.Name) and isinstance(s.value, (ast.Compare, ast.BoolOp, ast.UnaryOp, ast.Name)):
             v = const_test(s.value, consts)
             if v is not _UNDEC and isinstance(v, bool):
@@ -1008,8 +1054,38 @@ def prune(body, consts):
             n.handlers = hs
             out.append(n)
         else:
-            out.append(s)
+            out.append(_prune_ifexp(s, consts))
     return out
+
+
+def _prune_ifexp(s, consts):
+    """a simple statement whose conditional expressions are decidable under the constants: a copy with the taken operands"""
+    if not any(isinstance(n, ast.IfExp) and const_test(n.test, consts) is not _UNDEC for n in ast.walk(s)):
+        return s
+
+    class T(ast.NodeTransformer):
+        def visit_IfExp(self, n):
+            t = const_test(n.test, consts)
+            if t is _UNDEC:
+                return self.generic_visit(n)
+            return self.visit(n.body if t else n.orelse)
+    return ast.fix_missing_locations(T().visit(copy.deepcopy(s)))
+
+
+def alias_root(fnode, name, limit=12):
+    """the variable `name` is a plain copy of: follows `name = other` while `name` is bound exactly once in the function"""
+    seen = set()
+    while name not in seen and limit > 0:
+        seen.add(name)
+        limit -= 1
+        binds = [n for n in ast.walk(fnode) if isinstance(n, ast.Name) and n.id == name and isinstance(n.ctx, (ast.Store, ast.Del))]
+        if len(binds) != 1:
+            return name
+        owner = next((a for a in ast.walk(fnode) if isinstance(a, ast.Assign) and len(a.targets) == 1 and a.targets[0] is binds[0]), None)
+        if owner is None or not isinstance(owner.value, ast.Name):
+            return name
+        name = owner.value.id
+    return name
 
 
 class PrunedFn:
